@@ -442,6 +442,21 @@ def corpus(tier):
             tags=("list", "slice"),
         )
     )
+    # every (start, stop, step) over bounds on both sides of the length, for the three slice spellings, on lists and strings
+    _acc = "    mut acc = 7\n    for y in ys:\n        acc = acc * 10 + y\n    return acc"
+    for nm, params, sl, loops, call in (
+        ("list_slice_grid", "a: int, b: int, c: int", "xs[a:b:c]", f"for a in [-7, -6, -5, -4, -1, 0, 2, 4, 5, 7]:\n    for b in [-7, -6, -5, -4, -1, 0, 2, 4, 5, 7]:\n        for c in [-3, -2, -1, 1, 2, 3]:\n            ", "(a, b, c)"),
+        ("list_slice_grid_nostop", "a: int, c: int", "xs[a::c]", f"for a in [-7, -6, -5, -4, -1, 0, 2, 4, 5, 7]:\n    for c in [-3, -2, -1, 1, 2, 3]:\n        ", "(a, c)"),
+        ("list_slice_grid_nostart", "b: int, c: int", "xs[:b:c]", f"for b in [-7, -6, -5, -4, -1, 0, 2, 4, 5, 7]:\n    for c in [-3, -2, -1, 1, 2, 3]:\n        ", "(b, c)"),
+        ("list_slice_grid_nostep", "a: int, b: int", "xs[a:b]", f"for a in [-7, -6, -5, -4, -1, 0, 2, 4, 5, 7]:\n    for b in [-7, -6, -5, -4, -1, 0, 2, 4, 5, 7]:\n        ", "(a, b)"),
+    ):
+        U.append(Unit(nm, f"def {nm}({params}) -> int:\n    xs = [1, 2, 3, 4, 5]\n    ys = {sl}\n{_acc}".replace("{nm}", nm).replace("{params}", params).replace("{sl}", sl).replace("{_acc}", _acc), f"{loops}println({nm}{call})".replace("{loops}", loops).replace("{nm}", nm).replace("{call}", call), tags=("list", "slice", "grid", nm)))
+    for nm, params, sl, loops, call in (
+        ("str_slice_grid", "a: int, b: int, c: int", "s[a:b:c]", f"for a in [-7, -6, -5, -4, -1, 0, 2, 4, 5, 7]:\n    for b in [-7, -6, -5, -4, -1, 0, 2, 4, 5, 7]:\n        for c in [-3, -2, -1, 1, 2, 3]:\n            ", "(a, b, c)"),
+        ("str_slice_grid_nostop", "a: int, c: int", "s[a::c]", f"for a in [-7, -6, -5, -4, -1, 0, 2, 4, 5, 7]:\n    for c in [-3, -2, -1, 1, 2, 3]:\n        ", "(a, c)"),
+        ("str_slice_grid_nostart", "b: int, c: int", "s[:b:c]", f"for b in [-7, -6, -5, -4, -1, 0, 2, 4, 5, 7]:\n    for c in [-3, -2, -1, 1, 2, 3]:\n        ", "(b, c)"),
+    ):
+        U.append(Unit(nm, f"def {nm}({params}) -> str:\n    s = \"abcdé\"\n    return \"<\" + {sl} + \">\"".replace("{nm}", nm).replace("{params}", params).replace("{sl}", sl), f"{loops}println({nm}{call})".replace("{loops}", loops).replace("{nm}", nm).replace("{call}", call), tags=("str", "slice", "grid", nm)))
     U.append(
         Unit(
             "listcomp",
@@ -529,6 +544,17 @@ def corpus(tier):
             'def st_g(a: int, b: int) -> str:\n    return f"{a}{b}|{a + b}|{a * b}"',
             "println(st_g(2, 3))\nprintln(st_g(-1, 10))",
             tags=("fstring", "adjacent-parts"),
+        )
+    )
+    # `{x:?}` is the documented debug representation (reference/strings.md, derives/string_representation.md):
+    # a model prints as `Name { field: value, ... }`, a string quoted; the reference is hand-written from those pages
+    U.append(
+        Unit(
+            "fstring_debug",
+            '@derive(Debug)\nmodel DbgPoint:\n    x: int\n    y: int\n\n\ndef st_dbg(s: str, n: int) -> str:\n    p = DbgPoint(x=n, y=20)\n    return f"{p:?}|{s:?}|{s}|{n:?}"',
+            'println(st_dbg("bob", 10))\nprintln(st_dbg("", -1))',
+            py_decls='def st_dbg(s, n):\n    return "DbgPoint { x: %d, y: 20 }|\\"%s\\"|%s|%d" % (n, s, s, n)',
+            tags=("fstring", "debug-spec"),
         )
     )
     # ---- Option / Result / match ---------------------------------------------------------------------------------------
